@@ -9146,7 +9146,7 @@ bool SoPlexBase<R>::_parseSettingsLine(char* line, const int lineNumber)
    // check whether we have the random seed
    if(strncmp(paramTypeString, "uint", 4) == 0)
    {
-      if(strncmp(paramName, "random_seed", 11) == 0)
+      if(strncmp(paramName, "random_seed", SPX_SET_MAX_LINE_LEN) == 0)
       {
          unsigned int value;
          unsigned long parseval;
@@ -9635,7 +9635,7 @@ bool SoPlexBase<R>::parseSettingsString(char* string)
    // check whether we have the random seed
    if(strncmp(paramTypeString, "uint", 4) == 0)
    {
-      if(strncmp(paramName, "random_seed", 11) == 0)
+      if(strncmp(paramName, "random_seed", SPX_SET_MAX_LINE_LEN) == 0)
       {
          unsigned int value;
          unsigned long parseval;
